@@ -121,27 +121,37 @@ func newWorld(cfg Config, seed uint64, ar arenas) (*world, error) {
 }
 
 func (w *world) release() {
+	for _, in := range w.inputs {
+		in.Release()
+	}
+	w.inputs = nil
 	if !w.closed {
 		hx.Catch(func() { w.e.Close() })
 	}
-	if w.verifier != nil {
-		hx.Catch(func() { w.verifier.Close() })
-	}
 }
+
+// sharedVerifier holds the independent decoder instances (one per type and process) that project
+// writer bytes back to data. They are never used for compression and never see the instance under
+// test; a verifier that failed is discarded.
+var sharedVerifier = map[encoders.Type]encoder.Encoder{}
 
 // project decodes exactly the bytes one Compress call emitted with an independent decoder and
 // names the data class they restore ("error" when they do not restore the input).
 func (w *world) project(frame []byte, in *Data) string {
+	if w.verifier == nil {
+		w.verifier = sharedVerifier[w.cfg.Type]
+	}
 	if w.verifier == nil {
 		v, err := encoder.New(w.cfg.Type)
 		if err != nil {
 			hx.Die("codec: %v", err)
 		}
 		w.verifier = v
+		sharedVerifier[w.cfg.Type] = v
 	}
 	want := in.Pristine()
-	out := make([]byte, len(want))
-	inb := make([]byte, len(frame))
+	out, inb := getBuf(len(want)), getBuf(len(frame))
+	defer func() { putBuf(out); putBuf(inb) }()
 	var n int
 	var err error
 	p := hx.Catch(func() { n, err = w.verifier.Decompress(inb, out, &fileLike{b: frame}) })
@@ -160,6 +170,7 @@ func (w *world) project(frame []byte, in *Data) string {
 	// a panicking / failing decoder may be left in an undefined state
 	hx.Catch(func() { w.verifier.Close() })
 	w.verifier = nil
+	delete(sharedVerifier, w.cfg.Type)
 	return "error"
 }
 
@@ -350,7 +361,6 @@ func Descriptor(binding, typ, impl string, a act, field string) map[string]any {
 	desc := map[string]any{"binding": binding, "type": typ, "impl": impl, "op": a.Name, "field": field}
 	if a.Name == "Compress" {
 		desc["data"] = a.D
-		desc["scratch"] = a.S
 		desc["scratch_nonempty"] = a.S == "lenNcapBig" || a.S == "lenNcapSmall"
 	}
 	return desc
@@ -386,6 +396,7 @@ func init() {
 // Replay executes TLC behaviours of EncoderGen (one JSON array of steps per line) on one point of
 // the type x level grid and compares the projected implementation state with exp after every step.
 func Replay(cfg Config, seed uint64, base, corrupt int, in io.Reader, out io.Writer) {
+	defer startProfile()()
 	o := hx.NewOut(out)
 	defer o.Flush()
 	ar := arenas{NewArena(arenaCap), NewArena(arenaCap + 8192), NewArena(arenaCap + 8192)}
